@@ -31,6 +31,10 @@ func vpC02Fund(t *rapid.T, l *vpLedger, n, maxKeys int) {
 			}
 		case 2:
 			th = nk
+		case 3:
+			// the largest threshold a script can carry (64), and its neighbour:
+			// more than the output has keys, so it can never be met
+			th = rapid.SampledFrom([]int{64, 64, 63}).Draw(t, "fund_th_top")
 		default:
 			th = rapid.IntRange(1, nk).Draw(t, "fund_th")
 		}
